@@ -35,6 +35,8 @@ struct Viol
     int         lost{0};   // > 0: this deviation is "live key <lost> disappeared" and nothing else
     int         rejkey{0}; // > 0: the C09 part of props comes from an earlier rejected insert on this key and
                            // must be confirmed against the history without that insert (see seqmc.cpp)
+    int         updkey{0}; // > 0: the C09 part comes from "the last write of this key was an update": confirmed
+                           // against the history in which that update is an erase + fresh insert instead
 };
 
 struct ME
@@ -44,6 +46,7 @@ struct ME
     uint8_t  rej{0};     // C09 runs: a rejected insert hit this live entry since its last write
     uint64_t rejmask{0}; // ... at these history positions (not part of the state key)
     uint8_t  upd{0};     // C09 runs: the latest successful write of this entry was an update (TTL restart is C09's too)
+    int16_t  updpos{-1}; // ... made by the single insert call at this history position (not part of the state key)
     int     wid{-1};
     int64_t deadline{INF_NS};
     int     uses{0};
@@ -218,6 +221,7 @@ struct Spec
         PM  losetag[MAXK + 1];
         PM  phantag[MAXK + 1];
         bool rejtag[MAXK + 1] = {};
+        bool updtag[MAXK + 1] = {};
         for (int k = 1; k <= U; k++)
         {
             expect[k]  = liveb[k] ? 1 : 0;
@@ -233,6 +237,7 @@ struct Spec
         auto write_new = [&](int k, int w, int64_t dl) {
             ME& e     = m.e[k];
             e.upd     = 0;
+            e.updpos  = -1;
             e.present = 1;
             e.inE     = 0;
             e.rej     = 0;
@@ -246,7 +251,8 @@ struct Spec
         };
         auto write_upd = [&](int k, int w, int64_t dl) {
             ME& e      = m.e[k];
-            e.upd      = kn.track_rej ? 1 : 0;
+            e.upd      = (kn.track_rej && op.k == OpK::Insert) ? 1 : 0;
+            e.updpos   = (int16_t)kn.depth;
             e.present  = 1;
             e.inE      = 0;
             e.rej      = 0;
@@ -295,6 +301,7 @@ struct Spec
                         //  restart the TTL from the update time - C09 says "restarting any TTL")
                         phantag[k] = P(1) | P(4) | ((e.rej || e.upd) ? P(9) : 0);
                         rejtag[k]  = e.rej && !e.upd;
+                        updtag[k]  = e.upd;
                     }
                     else if (e.present)
                     {
@@ -302,6 +309,7 @@ struct Spec
                         // expired early (C05); retention across operations is C03's
                         losetag[k] = P(5) | ((e.rej || e.upd) ? P(9) : 0);
                         rejtag[k]  = e.rej && !e.upd;
+                        updtag[k]  = e.upd;
                     }
                 }
                 break;
@@ -722,7 +730,7 @@ struct Spec
                 if (expect[k] == 0)
                 {
                     snprintf(buf, sizeof buf, "key %d is found but has no live entry in the model", k);
-                    vs.push_back(Viol{phantag[k], buf, 0, (rejtag[k] && (phantag[k] & P(9))) ? k : 0});
+                    vs.push_back(Viol{phantag[k], buf, 0, (rejtag[k] && (phantag[k] & P(9))) ? k : 0, (updtag[k] && (phantag[k] & P(9))) ? k : 0});
                 }
                 else if (expect[k] == 1 && !T.is_set && se.wid != (g_val_eq_mode ? k : ewid[k]))
                 {
@@ -741,7 +749,7 @@ struct Spec
             else if (expect[k] == 1)
             {
                 snprintf(buf, sizeof buf, "live key %d is no longer found", k);
-                vs.push_back(Viol{losetag[k], buf, k, (rejtag[k] && (losetag[k] & P(9))) ? k : 0});
+                vs.push_back(Viol{losetag[k], buf, k, (rejtag[k] && (losetag[k] & P(9))) ? k : 0, (updtag[k] && (losetag[k] & P(9))) ? k : 0});
             }
         }
 
